@@ -323,3 +323,22 @@ Theorem C17_translated_aggregated_has_no_clients : forall a,
   /\ obind RV.Gen.Code.gen_agg_new (fun s => RV.Gen.Code.gen_agg_iter (snd s)) = Ok [].
 Proof. exact RV.Proofs.CodeRecorders.gen_agg_views_model. Qed.
 Print Assumptions C17_translated_aggregated_has_no_clients.
+
+(* ---- Reporter::report AS TRANSLATED (the CSV file of per-client statistics; File::create's success and the
+   serializer's verdict per record are parameters): what is handed to the CSV writer is the longest prefix of
+   the merged records that serialises, in map order; nothing is created when nothing was merged or no
+   persistence directory is configured; a file that cannot be created changes nothing — and so, when the
+   records serialise, the published file holds every merged record exactly once *)
+Require RV.Proofs.CodeReport.
+
+Theorem C17_translated_report_is_spec : forall ser_ok create_ok clients loc file,
+  RV.Gen.Code.gen_reporter_report ser_ok create_ok clients loc file
+  = Ok (RV.Proofs.CodeReport.report_spec ser_ok create_ok clients loc file).
+Proof. exact RV.Proofs.CodeReport.gen_reporter_report_model. Qed.
+Print Assumptions C17_translated_report_is_spec.
+
+Theorem C17_report_writes_every_merged_record : forall ser_ok clients p file,
+  clients <> [] -> (forall c, In c (map snd clients) -> ser_ok c = true) ->
+  RV.Gen.Code.gen_reporter_report ser_ok true clients (Some p) file = Ok (Some (map snd clients)).
+Proof. exact RV.Proofs.CodeReport.report_writes_every_merged_record. Qed.
+Print Assumptions C17_report_writes_every_merged_record.
